@@ -13,9 +13,9 @@ LEVEL = "other"
 CLAIM = {
     "text": ("(R1) Exactness over the reals by induction, as machine-checked polynomial identities: the straight-line bodies of RunningStatistics.update and RunningCovariance.update are translated to rational functions of "
              "(n, S1, S2, x) resp. (n, Sx, Sy, Sxy, x, y) under the invariant count = n, mean = S1/n, M2 = S2 - S1^2/n (C = Sxy - Sx*Sy/n) and must normalise to the invariant at n + 1; base case = initial state; var, covar, sample_covar "
-             "normalise to their textbook forms; std / err are the stated roots; update_from_it calls update exactly once per element / pair in order (or, when written as a loop over local copies of the accumulators, that loop is verified by the same identities: locals start as the accumulators, one iteration maps the invariant at n to n + 1, every accumulator receives its own value back); the matrix class calls update once per pair; the matrix fill is symmetric. Because the invariant is a function of the multiset of inputs this gives "
+             "normalise to their textbook forms; std / err are the stated roots; update_from_it calls update exactly once per element / pair in order (or, when written as a loop over local copies of the accumulators, that loop is verified by the same identities: locals start as the accumulators, one iteration maps the invariant at n to n + 1, every accumulator receives its own value back); the RunningCovarianceMatrix index bookkeeping is evaluated for n = 1..4 on symbolic data by the analyser's own interpreter: one accumulator per unordered pair, each fed exactly once per update / update_from_it with its own two series, every matrix entry read from the accumulator of its pair; the matrix fill is symmetric. Because the invariant is a function of the multiset of inputs this gives "
              "'any chunking, any order' over the reals. (R2) Conditioning: a translation-type system (LOC / INV / CNT) shows the data enter the second-moment accumulators only through differences from a running location -- a sum-of-raw-squares formulation is algebraically exact, "
-             "passes R1 and the tests, and is rejected here. (R3) Stopping rule: every exit of the sampling loop is the convergence break (guarded by the sample floor and converged(rtol, tol_scale*rtol) with the arguments in the callee's order), the limit break in the "
+             "passes R1 and the tests, and is rejected here; methods with their own arithmetic are also typed from the empty state, where the 'running location' is still the constant 0 (a first chunk must not be summed as raw squares). (R3) Stopping rule: every exit of the sampling loop is the convergence break (guarded by the sample floor and converged(rtol, tol_scale*rtol) with the arguments in the callee's order), the limit break in the "
              "linear normal form i + 1 >= max_samples, or the keyboard interrupt; each drawn value reaches rs.update exactly once before any exit test. (R4) instances share no mutable state. Not decided: floating-point error bounds as such."),
     "note": "Trusted base: the translation table ast -> rational functions (xyzsa/poly.py) and exact Fraction arithmetic; real-number semantics of + - * /; ** 0.5 is the square root.",
     "technique": "static analysis: value-numbering of straight-line code as rational functions with identity checking by cross-multiplication (no solver), a 4-point translation-type system, CFG path rules with linear-form normalisation",
@@ -131,29 +131,10 @@ def induction_rule(ctx, rid):
             rr.note("%s.%s is not the per-element loop over update(); its own stores are typed by R2 and, if well-conditioned, the run ends as analysis-incomplete (exactness of a chunk merge is not established by R1)" % (cls.name, mname))
             ctx.extra.setdefault("unverified_chunk_merge", []).append("%s.%s" % (cls.name, mname))
             rr.ok("%s.%s: not the per-element loop (deferred to R2)" % (cls.name, mname))
-    # matrix
+    # matrix: finite-window evaluation of the index bookkeeping (n = 1..4)
     mx = prog.need_cls(U + ".RunningCovarianceMatrix")
-    mu = mx.methods.get("update")
-    ctx.touch(mu)
-    loops = [s for s in ast.walk(mu.node) if isinstance(s, ast.For)]
-    okm = len(loops) == 2 and norm(loops[0].iter) == "range(self.n)" and norm(loops[1].iter) in ("range(i, self.n)",) and any(norm(s) == "self.rcs[i, j].update(x[i], x[j])" for s in ast.walk(mu.node) if isinstance(s, ast.Expr))
-    upd = [s for s in ast.walk(mu.node) if isinstance(s, ast.Expr) and isinstance(s.value, ast.Call) and norm(s.value.func).startswith("self.rcs[") and norm(s.value.func).endswith(".update")]
-    if okm:
-        rr.ok("RunningCovarianceMatrix.update: rcs[i, j].update(x[i], x[j]) once per pair i <= j")
-    elif len(loops) == 2 and all(norm(l.iter).startswith("range(") for l in loops) and upd:
-        rr.bad(ctx.finding(rid, mu, mu.node, "RunningCovarianceMatrix.update no longer updates each pair (i <= j) exactly once with (x[i], x[j])", construct="matrix-update"), "matrix update")
-    else:
-        raise AnalysisError("idiom changed: RunningCovarianceMatrix.update is not the nested range loop over pairs")
-    for pname, attr in (("covar_matrix", "covar"), ("sample_covar_matrix", "sample_covar")):
-        pm = mx.methods.get(pname)
-        ctx.touch(pm)
-        txt = " ".join(norm(s) for s in pm.node.body)
-        if "covar_matrix[i, j] = self.rcs[i, j].%s" % attr in txt and "covar_matrix[i, j] = self.rcs[j, i].%s" % attr in txt and "if j >= i" in txt:
-            rr.ok("%s: symmetric fill from rcs[min, max].%s" % (pname, attr))
-        elif "covar_matrix[" not in txt:
-            raise AnalysisError("idiom changed: %s does not fill `covar_matrix[i, j]` itself" % pname)
-        else:
-            rr.bad(ctx.finding(rid, pm, pm.node, "%s is not filled symmetrically from rcs[i, j] (j >= i) / rcs[j, i]" % pname, construct="matrix-fill " + pname), "matrix fill %s" % pname)
+    from .c19_matrix import check_matrix
+    check_matrix(ctx, rid, rr, mx)
     return rr
 
 
@@ -249,9 +230,13 @@ def shift_type(e, env, ctx=None, fi=None):
         if isinstance(e.op, ast.Sub):
             if a == "LOC" and b == "LOC":
                 return "INV"
-            if a == "LOC" and b in ("INV",):
+            if a == "LOC" and b in ("INV", "CNT"):
+                return "LOC"
+            if a == "CNT" and b == "LOC":
                 return "LOC"
             if a == "INV" and b == "INV":
+                return "INV"
+            if a == "INV" and b == "CNT" or a == "CNT" and b == "INV":
                 return "INV"
             if a == "CNT" and b == "CNT":
                 return "CNT"
@@ -259,10 +244,12 @@ def shift_type(e, env, ctx=None, fi=None):
                 return "CANCEL"
             return "OTHER"
         if isinstance(e.op, ast.Add):
-            if {a, b} == {"LOC", "INV"}:
+            if {a, b} == {"LOC", "INV"} or {a, b} == {"LOC", "CNT"}:
                 return "LOC"
             if a == b and a in ("INV", "CNT"):
                 return a
+            if {a, b} == {"INV", "CNT"}:
+                return "INV"
             if "RAW2" in (a, b):
                 return "RAW2"
             return "OTHER"
@@ -273,7 +260,7 @@ def shift_type(e, env, ctx=None, fi=None):
                 return "INV" if "INV" in (a, b) else "CNT"
             if "RAW2" in (a, b) or {a, b} == {"LOC", "CNT"}:
                 return "RAW2" if "RAW2" in (a, b) else "NLOC"
-            if {a, b} == {"NLOC", "LOC"}:
+            if {a, b} == {"NLOC", "LOC"} or (a == "NLOC" and b == "NLOC"):
                 return "RAW2"
             return "OTHER"
         if isinstance(e.op, ast.Div):
@@ -303,6 +290,8 @@ def shift_type(e, env, ctx=None, fi=None):
             return "RAW2" if args == ["LOC", "LOC"] else ("INV" if args == ["INV", "INV"] else "OTHER")
         if base in ("abs", "sqrt"):
             return args[0] if args else "OTHER"
+        if base in ("ravel", "flatten", "astype", "copy", "reshape", "squeeze", "tolist", "item") and recv is not None:
+            return recv
     if isinstance(e, ast.Attribute) and e.attr in ("size",):
         return "CNT"
     return "OTHER"
@@ -318,52 +307,57 @@ def conditioning_rule(ctx, rid):
             if not stores or mname == "__init__":
                 continue
             ctx.touch(m)
-            env = {a: "INV" for a in accs}
-            env.update({l: "LOC" for l in locs})
-            env["self.count"] = "CNT"
-            for p in m.positional[1:]:
-                env[p] = "LOC"
-            # straight-line typing in source order
-            for s in ast.walk(m.node):
-                pass
-            order = [s for s in ast.walk(m.node) if isinstance(s, (ast.Assign, ast.AugAssign, ast.For))]
-            order.sort(key=lambda s: (s.lineno, s.col_offset))
-            for s in order:
-                if isinstance(s, ast.For):
-                    it = shift_type(s.iter, env)
-                    for nm in names_in(s.target):
-                        env[nm] = it if it in ("LOC", "INV") else "LOC"
-                    continue
-                tg = s.targets[0] if isinstance(s, ast.Assign) else s.target
-                t = shift_type(s.value, env)
-                key = norm(tg)
-                if isinstance(s, ast.AugAssign):
-                    cur = env.get(key, "OTHER")
-                    if isinstance(s.op, (ast.Add, ast.Sub)):
-                        if "CANCEL" in (cur, t):
-                            t2 = "CANCEL"
-                        elif {cur, t} == {"LOC", "INV"}:
-                            t2 = "LOC"
-                        elif cur == t and t in ("INV", "CNT"):
-                            t2 = t
-                        elif "RAW2" in (cur, t) or "CANCEL" in (cur, t):
-                            t2 = "CANCEL" if isinstance(s.op, ast.Sub) else "RAW2"
+            passes = [("general state", {l: "LOC" for l in locs})]
+            if mname != "update":
+                # a method with its own arithmetic: also from the empty state, where the 'running location' is still the constant 0
+                # (for update() itself the empty state is covered exactly by R1: M2 / C stay 0 after the first sample)
+                passes.append(("empty accumulator (first chunk)", {l: "CNT" for l in locs}))
+            for ptag, locenv in passes:
+                env = {a: "INV" for a in accs}
+                env.update(locenv)
+                env["self.count"] = "CNT"
+                for p in m.positional[1:]:
+                    env[p] = "LOC"
+                order = [s for s in ast.walk(m.node) if isinstance(s, (ast.Assign, ast.AugAssign, ast.For))]
+                order.sort(key=lambda s: (s.lineno, s.col_offset))
+                for s in order:
+                    if isinstance(s, ast.For):
+                        it = shift_type(s.iter, env)
+                        for nm in names_in(s.target):
+                            env[nm] = it if it in ("LOC", "INV") else "LOC"
+                        continue
+                    tg = s.targets[0] if isinstance(s, ast.Assign) else s.target
+                    t = shift_type(s.value, env)
+                    key = norm(tg)
+                    if isinstance(s, ast.AugAssign):
+                        cur = env.get(key, "OTHER")
+                        if isinstance(s.op, (ast.Add, ast.Sub)):
+                            if "CANCEL" in (cur, t):
+                                t2 = "CANCEL"
+                            elif {cur, t} == {"LOC", "INV"} or {cur, t} == {"LOC", "CNT"}:
+                                t2 = "LOC"
+                            elif cur == t and t in ("INV", "CNT"):
+                                t2 = t
+                            elif {cur, t} == {"INV", "CNT"}:
+                                t2 = "INV"
+                            elif "RAW2" in (cur, t) or "CANCEL" in (cur, t):
+                                t2 = "CANCEL" if isinstance(s.op, ast.Sub) else "RAW2"
+                            else:
+                                t2 = "OTHER"
                         else:
                             t2 = "OTHER"
+                        newt = t2
                     else:
-                        t2 = "OTHER"
-                    newt = t2
-                else:
-                    newt = t
-                if key in accs:
-                    if newt == "INV":
-                        rr.ok("%s.%s: `%s` accumulates a shift-invariant quantity" % (cname, mname, norm(s)[:60]))
-                    elif newt in ("RAW2", "CANCEL", "NLOC"):
-                        rr.bad(ctx.finding(rid, m, s, "`%s` builds the second moment from raw squares / products of the data (type %s under a common shift of the data) instead of from deviations from the running mean: algebraically exact, but for data with a large offset the subtraction cancels catastrophically and var / std / err are wrong"
-                                           % (norm(s)[:80], newt), construct="raw-squares " + cname + "." + mname), "%s.%s conditioning" % (cname, mname))
-                    else:
-                        raise AnalysisError("%s.%s: cannot type `%s` under a shift of the data (%s)" % (cname, mname, norm(s)[:60], newt))
-                env[key] = newt
+                        newt = t
+                    if key in accs:
+                        if newt == "INV":
+                            rr.ok("%s.%s [%s]: `%s` accumulates a shift-invariant quantity" % (cname, mname, ptag, norm(s)[:60]))
+                        elif newt in ("RAW2", "CANCEL", "NLOC"):
+                            rr.bad(ctx.finding(rid, m, s, "`%s` builds the second moment from raw squares / products of the data (type %s under a common shift of the data; %s) instead of from deviations from the running mean: algebraically exact, but for data with a large offset the subtraction cancels catastrophically and var / std / err are wrong"
+                                               % (norm(s)[:80], newt, ptag), construct="raw-squares " + cname + "." + mname), "%s.%s conditioning" % (cname, mname))
+                        else:
+                            raise AnalysisError("%s.%s: cannot type `%s` under a shift of the data (%s, %s)" % (cname, mname, norm(s)[:60], newt, ptag))
+                    env[key] = newt
     return rr
 
 
